@@ -125,6 +125,7 @@ class Env:
         self.online_cpus = online_cpus or possible_cpus
         self.cpulist = cpulist or (f"0-{possible_cpus - 1}" if possible_cpus > 1 else "0")
         self.cpulist_fault = None      # "unreadable" / "garbage": the possible-CPU file fails
+        self.loop_max_iterations = None    # iteration budget of every loop made by new_loop
         self.affinity_cpus = 1         # CPUs this process may run on (<= online)
         self.bus = SimBus(self.world, ifname, faults=faults, kernel=self.kernel)
         self.buses = {ifname: self.bus}
@@ -289,6 +290,8 @@ class Env:
     def new_loop(self, name="p0"):
         loop = SimLoop(self.world, name,
                        endpoint_factory(self.buses, self.kernel, self.world))
+        if self.loop_max_iterations:
+            loop.max_iterations = self.loop_max_iterations
         self.loops.append(loop)
         return loop
 
